@@ -99,6 +99,13 @@ CHECKS["C11"] = (
     "DESIGN.md 2/C11, 1.7",
 )
 
+CHECKS["C10"] = (
+    "bounded exhaustive enumeration of expression trees x parenthesisation/spacing/spelling variants through the real loads and dumps->loads, read back by a hand-written reference precedence parser",
+    "All expression trees with <= 2 operators over every operator spelling (36 comparison/logical/arithmetic spellings, 4 unary) and all trees with <= 4 (thorough <= 5: 733k trees) operators over one representative per precedence class plus %, each rendered with minimal and with redundant parentheses, spaced and tight, placed in CLASS EXPRESSION (1-operator trees also in LAYER FILTER, CLASS TEXT, STYLE GEOMTRANSFORM, CLUSTER GROUP/FILTER): the normalised string stored by loads is parsed back by my own Pratt parser (the precedence ladder of the property) and must be exactly the intended tree (&& || ! as AND OR NOT, numbers by value, everything else verbatim and in order), and dumps->loads must reproduce the same string. Whole-value list expressions, regexes, function calls and bindings are checked verbatim.",
+    "Trusted: mcf/exprmodel.py (self-checked: refparse(render(t)) == t for every generated tree). Clean parse errors for generated sources are counted, not judged. Unary minus on a numeric literal excluded.",
+    "DESIGN.md 2/C10, 1.6",
+)
+
 NOT_YET = {}
 
 
